@@ -10,6 +10,12 @@ and it is the oldest outstanding response *of that client* (so per client: own r
 none lost, none duplicated).  Head-of-line blocking, refusal at a full id FIFO and scheduling are
 never flagged.  `clear` is not called: the statement says nothing about it.
 
+Latency 0 means: the response is offered in the cycle after the request was accepted.  A response in the very cycle
+of the request cannot pass through a Serializer: `serialize_out[i]` calls `pending_requests.read` (a BasicFifo, its
+readiness and its head are registered), so the id written by `serialize_in` in cycle t is visible from cycle t+1 on;
+in cycle t either the id FIFO is empty (no `serialize_out` is ready) or its head is an older request, which an
+in-order server answers first.  So a same-cycle response can never be taken, and the server does not offer one.
+
 The only liveness demanded: while the server offers a response and *all* clients ask for theirs, some
 client must receive it within a few cycles (otherwise that response is lost for good).
 
@@ -22,7 +28,7 @@ from __future__ import annotations
 
 from collections import deque
 
-from ..comp import CompScenario
+from ..comp import CompScenario, layout_from_spec, spec_leaves, spread, rand_leaf, rand_shape_spec
 from ..propbase import PropBase, make_plan
 
 TAGW = 12
@@ -44,6 +50,8 @@ def phase(plan, cyc):
 
 def respond(tag, x, wy):
     """The server's answer to a request: injective in the unique tag."""
+    if wy > 8:  # wide responses: all bits of y depend on the request
+        return ((tag * 5 + 3) & mask(TAGW), ((x + 1) * 0x9E3779B97F4A7C15 ^ tag * 0xC2B2AE3D27D4EB4F ^ 0x2A) & mask(wy))
     return ((tag * 5 + 3) & mask(TAGW), (x ^ (tag & 0xFF) ^ 0x2A) & mask(wy))
 
 
@@ -58,8 +66,13 @@ class SerializerScen(CompScenario):
         self.resp_l = [("val", TAGW), ("y", self.wy)]
         req = self.callee("req", None, i=self.req_l, o=[])
         resp = self.callee("resp", None, i=[], o=self.resp_l)
-        self.dut = Serializer(port_count=self.n, serialized_req_method=req.iface, serialized_resp_method=resp.iface,
-                              depth=self.depth)
+        if c.get("depth_default"):  # depth not passed: the documented default (4)
+            self.dut = Serializer(port_count=self.n, serialized_req_method=req.iface, serialized_resp_method=resp.iface)
+            self.hit("serializer_default_depth")
+        else:
+            self.dut = Serializer(port_count=self.n, serialized_req_method=req.iface, serialized_resp_method=resp.iface,
+                                  depth=self.depth)
+        self.mul = c.get("tagmul", 1)
         self.top.add("dut", self.dut)
         for i in range(self.n):
             self.caller(f"in{i}", self.dut.serialize_in[i])
@@ -91,7 +104,7 @@ class SerializerScen(CompScenario):
         for i in range(n):
             stim[f"in{i}.en"] = int(rng.random() < p_in)
             self.tag += 1
-            stim[f"in{i}.i.tag"] = self.tag & mask(TAGW)
+            stim[f"in{i}.i.tag"] = spread(self.tag, self.mul, TAGW)  # unique while fewer than 2**TAGW tags are drawn
             stim[f"in{i}.i.x"] = rng.getrandbits(self.wx)
             stim[f"out{i}.en"] = int(rng.random() < p_out) if i != held else 0
         stim["req.en"] = int(rng.random() < p_acc)
@@ -149,6 +162,10 @@ class SerializerScen(CompScenario):
             self.expq[i].popleft()
             self.srv.popleft()
             self.hit("response_delivered")
+            if i >= 4:
+                self.hit("response_delivered_to_port_4_or_above")
+            if got[1] >> 8:
+                self.hit("response_value_wider_than_8_bits")
         if ins:
             (i,) = ins
             sent = (stim.get(f"in{i}.i.tag", 0), stim.get(f"in{i}.i.x", 0))
@@ -162,6 +179,8 @@ class SerializerScen(CompScenario):
             self.hit("request_accepted")
             if len(self.srv) == self.depth:
                 self.hit("pending_reached_depth")
+                if self.depth >= 6:
+                    self.hit("pending_reached_depth_6_or_more")
         # a response offered to clients that all ask must get through eventually
         if resp_en and all(out_en) and not outs:
             self.stuck += 1
@@ -207,10 +226,14 @@ class ZipperScen(CompScenario):
         from transactron.lib import ArgumentsToResultsZipper
 
         c = self.cfg
-        self.wx, self.wy = c["wx"], c["wy"]
-        self.al = [("tag", TAGW), ("x", self.wx)]
-        self.rl = [("val", TAGW), ("y", self.wy)]
-        self.dut = ArgumentsToResultsZipper(self.al, self.rl)
+        # "x" / "y": a width (the old form) or any shape spec of comp.layout_from_spec (wide, signed, nested struct, array)
+        self.al_spec = [["tag", TAGW], ["x", c["wx"]]]
+        self.rl_spec = [["val", TAGW], ["y", c["wy"]]]
+        self.aleafs = spec_leaves(self.al_spec)
+        self.rleafs = spec_leaves(self.rl_spec)
+        self.mul = c.get("tagmul", 1)
+        obj = bool(c.get("layout_obj"))
+        self.dut = ArgumentsToResultsZipper(layout_from_spec(self.al_spec, obj), layout_from_spec(self.rl_spec, obj))
         self.top.add("dut", self.dut)
         self.caller("wa", self.dut.write_args)
         self.caller("wr", self.dut.write_results)
@@ -238,10 +261,11 @@ class ZipperScen(CompScenario):
         if kind == "lag":  # the callee answers a seeded number of cycles after the arguments were written
             pr = 0.6 if len(self.R) < len(self.A) else 0.0
         stim = {"wa.en": int(rng.random() < pa), "wr.en": int(rng.random() < pr), "rd.en": int(rng.random() < pd)}
-        stim["wa.i.tag"] = (cyc + 1) & mask(TAGW)
-        stim["wa.i.x"] = rng.getrandbits(self.wx)
-        stim["wr.i.val"] = ((cyc + 1) * 3 + 1) & mask(TAGW)
-        stim["wr.i.y"] = rng.getrandbits(self.wy)
+        # unique tags (cycle number * odd constant modulo 2**TAGW; results: another odd constant), noise elsewhere
+        for k, (f, w, sgn) in enumerate(self.aleafs):
+            stim[f"wa.i.{f}"] = spread(cyc + 1, self.mul, w) if k == 0 else rand_leaf(rng, w, sgn)
+        for k, (f, w, sgn) in enumerate(self.rleafs):
+            stim[f"wr.i.{f}"] = spread(cyc + 1, self.mul * 3, w) if k == 0 else rand_leaf(rng, w, sgn)
         return stim
 
     def check(self, cyc, stim, obs):
@@ -251,25 +275,33 @@ class ZipperScen(CompScenario):
             self.expect(not done[p] or en[p], "ran-when-not-callable", f"{p} executed without a request", port=p)
         a_before, r_before = len(self.A) - self.k, len(self.R) - self.k
         if done["wa"]:
-            v = (stim.get("wa.i.tag", 0), stim.get("wa.i.x", 0))
+            v = tuple(stim.get(f"wa.i.{f}", 0) for f, _, _ in self.aleafs)
             self.premise(v[0] not in self.atags, "argument tags are unique")
             self.atags.add(v[0])
             self.A.append(v)
         if done["wr"]:
-            v = (stim.get("wr.i.val", 0), stim.get("wr.i.y", 0))
+            v = tuple(stim.get(f"wr.i.{f}", 0) for f, _, _ in self.rleafs)
             self.premise(v[0] not in self.rtags, "result tags are unique")
             self.rtags.add(v[0])
             self.R.append(v)
         if done["rd"]:
             k = self.k
-            ga = (obs["rd.o.args.tag"], obs["rd.o.args.x"])
-            gr = (obs["rd.o.results.val"], obs["rd.o.results.y"])
+            ga = tuple(obs[f"rd.o.args.{f}"] for f, _, _ in self.aleafs)
+            gr = tuple(obs[f"rd.o.results.{f}"] for f, _, _ in self.rleafs)
             self.expect(k < len(self.A), "read-without-args", f"read #{k} executed, only {len(self.A)} argument(s) were ever written; returned args {ga}")
             self.expect(k < len(self.R), "read-without-results", f"read #{k} executed, only {len(self.R)} result(s) were ever written; returned results {gr}")
             self.expect(ga == self.A[k], "args-mismatch", f"read #{k} returned args {ga}, the {k}-th written argument is {self.A[k]}")
             self.expect(gr == self.R[k], "results-mismatch", f"read #{k} returned results {gr}, the {k}-th written result is {self.R[k]}")
             self.k += 1
             self.hit("read")
+            for leafs, got in ((self.aleafs, ga), (self.rleafs, gr)):
+                for (f, w, sgn), v in zip(leafs[1:], got[1:]):
+                    if w > 8 and (v if v >= 0 else v + (1 << w)) >> 8:
+                        self.hit("zipper_value_wider_than_8_bits")
+                    if sgn and v < 0:
+                        self.hit("zipper_negative_signed_field")
+                if len(leafs) > 2:
+                    self.hit("zipper_struct_or_array_field")
             if r_before == 0:
                 self.hit("read_result_forwarded_same_cycle")
             if done["wa"] and done["wr"]:
@@ -297,9 +329,11 @@ class Prop(PropBase):
         "quick": {"runs": 400, "selftest_runs": 4},
         "thorough": {"runs": 9000, "selftest_runs": 32},
     }
-    rule = ("one run = a Serializer (1-4 ports, depth 1-5) between seeded clients and an in-order server played by the "
+    rule = ("one run = a Serializer (1-4 ports, a share 5-8; depth 1-5, a share 6-8 or the constructor default; payload fields "
+            "1-40 bits) between seeded clients and an in-order server played by the "
             "harness (seeded accept stalls, response latency 0-6, phases random / burst / fill / server stall / slow "
-            "server / one client not reading / idle, then a final drain), or an ArgumentsToResultsZipper under phases "
+            "server / one client not reading / idle, then a final drain), or an ArgumentsToResultsZipper (narrow fields, or wide "
+            "/ signed / nested-struct / array fields, layouts as lists or StructLayout objects) under phases "
             "random / all / args first / results first / no read / lagging results / drain / idle; 60-240 cycles; "
             "distinct = distinct (configuration, outstanding count, per-client outstanding (capped), executed set); "
             "non-trivial = a request or response was transferred (zipper: read executed or a buffer is full)")
@@ -309,7 +343,9 @@ class Prop(PropBase):
                     "req_and_resp_same_client_same_cycle", "response_at_full_with_request_waiting", "drained_clean",
                     "read", "read_result_forwarded_same_cycle", "read_and_both_writes_same_cycle",
                     "args_write_refused_fifo_full", "results_write_refused_buffer_full", "read_waits_for_results",
-                    "read_waits_for_args"]
+                    "read_waits_for_args", "serializer_default_depth", "response_delivered_to_port_4_or_above",
+                    "response_value_wider_than_8_bits", "pending_reached_depth_6_or_more",
+                    "zipper_value_wider_than_8_bits", "zipper_negative_signed_field", "zipper_struct_or_array_field"]
     real = ["transactron.lib.reqres.Serializer", "transactron.lib.reqres.ArgumentsToResultsZipper",
             "transactron.lib.fifo.BasicFifo", "transactron.lib.connectors.Forwarder",
             "transactron.lib.adapters.AdapterTrans (clients)", "transactron.lib.adapters.Adapter (server methods)",
@@ -329,9 +365,19 @@ class Prop(PropBase):
         cfg = {"kind": "serializer" if rng.random() < 0.75 else "zipper", "sched": rng.choice(["eager", "eager", "rr"])}
         cfg["wx"], cfg["wy"] = rng.choice([1, 4, 8]), rng.choice([1, 3, 8])
         cycles = rng.randint(60, 240 if not big else 400)
+        cfg["tagmul"] = rng.getrandbits(TAGW) | 1
         if cfg["kind"] == "serializer":
             cfg["ports"] = rng.randint(1, 4)
             cfg["depth"] = rng.randint(1, 5)
+            if rng.random() < 0.2:
+                cfg["ports"] = rng.randint(5, 8)
+            r = rng.random()
+            if r < 0.15:
+                cfg["depth"] = rng.randint(6, 8)
+            elif r < 0.3:
+                cfg["depth"], cfg["depth_default"] = 4, 1  # the argument is not passed
+            if rng.random() < 0.3:
+                cfg["wx"], cfg["wy"] = rng.choice([8, 24, 40]), rng.choice([13, 24, 40])
             kinds = ["random", "random", "burst", "fill", "srvstall", "slowsrv", "idle"] + (["holdout"] * 2 if cfg["ports"] > 1 else [])
             drain = 0
             if rng.random() < 0.8:
@@ -340,6 +386,10 @@ class Prop(PropBase):
             if drain:
                 plan.append([cycles - drain, "drain", 1.0])
         else:
+            if rng.random() < 0.6:
+                cfg["wx"] = rand_shape_spec(rng) if rng.random() < 0.7 else rng.choice([24, 40, 64])
+                cfg["wy"] = rand_shape_spec(rng) if rng.random() < 0.7 else rng.choice([13, 33, 64])
+            cfg["layout_obj"] = int(rng.random() < 0.25)
             kinds = ["random", "random", "all", "argsfirst", "resfirst", "noread", "lag", "drain", "idle"]
             plan = make_plan(rng, cycles, kinds, min_len=4, max_len=20)
         cfg["cycles"] = cycles
@@ -360,6 +410,7 @@ class Prop(PropBase):
             if cfg["depth"] > 1:
                 c = dict(cfg)
                 c["depth"] = cfg["depth"] - 1
+                c.pop("depth_default", None)
                 yield c
             if cfg["ports"] > 1:
                 c = dict(cfg)
